@@ -6,6 +6,7 @@ import sys, os, subprocess, tempfile, shutil, glob, concurrent.futures, json
 V = os.path.dirname(os.path.dirname(os.path.abspath(__file__)))
 REPO = os.environ.get("VERIF_REPO", "/repo")
 BIN = os.path.join(V, ".bin", "vcheck")
+subprocess.run([os.path.join(V, "run.sh"), "setup"], check=True)  # rebuild the checker if its sources changed
 flt = [a for a in sys.argv[1:] if not a.startswith("--")]
 jobs = 8
 for a in sys.argv[1:]:
